@@ -32,7 +32,13 @@ FreezeOK(e) == /\ IF Tr.weak THEN WeakOK(e.snap, e.d) ELSE e.snap = ExpectedDst(
 TFreeze == /\ st = "run" /\ l <= Len(Tr.events) /\ FreezeOK(Ev)
            /\ (l > 1 => Ev.d >= Tr.events[l - 1].d)
            /\ l' = l + 1 /\ UNCHANGED <<t, st>>
+(* inotify on the destination directory for the whole session: a listed path that had previous     *)
+(* content (replaced files, the replaced symlink) is replaced by a rename OVER it - the watcher     *)
+(* never sees it deleted or moved away (Atomic!AtomicPaths between two wire units, where no        *)
+(* snapshot can look)                                                                              *)
+NeverUnlinked == Len(Tr.unlinked) = 0
 TEnd == /\ st = "run" /\ l = Len(Tr.events) + 1
+        /\ NeverUnlinked
         /\ LET e == Tr.final IN
              CASE Tr.weak -> /\ WeakOK(e.snap, TotalUnits(Tr.ntoks)) /\ e.lnk \in {"old", "new"} /\ e.temps = 0
                [] e.mode = "done"  -> /\ e.result = "ok" /\ e.snap = AllNew /\ e.lnk = "new" /\ e.temps = 0
